@@ -21,6 +21,7 @@ class NodeModel(object):
         self.tables = {"public": True}     # name -> isotopes of mass.init present
         self.added = {}                    # (tbl, Z) -> set(A)
         self.reg = {}                      # (tbl, Z, A, q) -> registry index
+        self.kept = {}                     # table whose handle was dropped -> atoms the caller kept
 
     def isotopes(self, tbl, Z):
         s = set()
@@ -172,6 +173,28 @@ def judge(W, run, trace):
             check_report(i, nid, tbl, ref, out, "roundtrip:" + how.split(":")[0])
             if not out.get("same") or out.get("orig") != out.get("reg"):
                 v(i, "roundtrip:" + how.split(":")[0], "new_object", {"same": True}, out, role)
+            continue
+        if k == "drop_handle":
+            name, refs = ev[1], ev[2]
+            if name in m.tables and all(m.valid(name, r) for r in refs):
+                if out == "ok":
+                    m.kept[name] = refs
+                    bump("table_handle_dropped")
+                else:
+                    v(i, "drop_handle", "exception:" + (out[1] if is_err(out) else "?"), "ok", out)
+            continue
+        if k == "roundtrip_kept":
+            name, idx, how = ev[1], ev[2], ev[3]
+            refs = m.kept.get(name)
+            if not refs or name not in m.tables:
+                continue
+            ref = refs[idx]
+            if is_err(out):
+                v(i, "roundtrip_kept:" + how.split(":")[0], "exception:" + out[1], "same object", out)
+                continue
+            check_report(i, nid, name, ref, out, "roundtrip_kept:" + how.split(":")[0])
+            if not out.get("same") or out.get("orig") != out.get("reg"):
+                v(i, "roundtrip_kept:" + how.split(":")[0], "new_object", {"same": True}, out)
             continue
         if k == "container":
             tbl, refs, how = ev[1], ev[2], ev[3]
